@@ -1857,6 +1857,8 @@ def _mod_operands(lname, a):
         return [(y + m * st, st), (y, st)]
     if lname in ("mod_small", "mod_small_neg"):
         return [(a[0], a[1])]
+    if lname == "mod_multiple":
+        return [(a[0] * a[1], a[1])]
     return []
 
 
